@@ -69,6 +69,7 @@ func cmdRun(args []string) int {
 	cvc := fs.Bool("cvc", false, "prefer cvc5")
 	params := fs.String("params", "", "k=v,k=v")
 	saveq := fs.String("saveq", "", "directory for query dumps")
+	zero := fs.String("zero", "", "comma-separated functions stubbed to return zero values")
 	fs.Parse(args)
 	ov, err := overlayFor(*repo, *verif, *pkg, strings.Split(*files, ","))
 	if err != nil {
@@ -89,6 +90,9 @@ func cmdRun(args []string) int {
 	}
 	ec.Opts.Trace = *trace
 	ec.SaveQueriesDir = *saveq
+	if *zero != "" {
+		ec.ZeroStubs = strings.Split(*zero, ",")
+	}
 	ec.OnceInit = defaultOnce()
 	if *once != "" {
 		ec.OnceInit = append(ec.OnceInit, strings.Split(*once, ",")...)
